@@ -7,7 +7,7 @@ import Nlmodel.Proofs.Lemmas.SimProgram
 import Nlmodel.Proofs.Lemmas.ResolveTop
 import Nlmodel.Proofs.Lemmas.ResolveCtl
 import Nlmodel.Proofs.Lemmas.SpecMono
-import Nlmodel.Proofs.Lemmas.SimFnProgram
+import Nlmodel.Proofs.Lemmas.SimFnValidate
 namespace Nl
 namespace C01
 
@@ -185,6 +185,35 @@ theorem C01_function_program (p : RBlock) (Γ' : Sim.Gam) (D : List (Nat × SimF
     | .ret _ _ => False
     | _ => True :=
   SimF.fn_program p Γ' D hy hnd bc hc F
+
+/-- END TO END FROM SOURCE TREES, stage 4, by validation: for ANY parsed program, if the tree the
+    resolver model produces passes the decidable fragment check `SimF.inFragment` (proved sound:
+    `SimF.inFragment_sound`), then compiling and running it agrees with the definitional semantics
+    of that tree, or stops at the machine's stack limit.  The check is what `nldriver fragment`
+    evaluates on every generated program of the C01 correspondence (evidence: share of programs
+    inside the proved fragment). -/
+theorem C01_function_source_program (ast : Block) (r : RBlock) (bc : Bytecode) (hc : compileProgram ast = .ok (r, bc))
+    (hin : SimF.inFragment r = true) (F : Nat) :
+    (∃ n, ∀ k, ∃ s', runSteps bc.code (n + k) (VM.start {} bc) = .error .index s') ∨
+    match Spec.evalB F r {} with
+    | .val () st' => ∃ Γ' D mv n, SimF.VR (SimF.lookupD D) Γ' st'.last mv ∧ st'.out = [] ∧
+        ∀ k, ∃ s', runSteps bc.code (n + k) (VM.start {} bc) = .value mv s'
+    | .err er _ => ∃ n, ∀ k, ∃ s', runSteps bc.code (n + k) (VM.start {} bc) = .error er s'
+    | .brk _ => False
+    | .cont _ => False
+    | .ret _ _ => False
+    | _ => True :=
+  SimF.fn_source_program ast r bc hc hin F
+
+/-- `functie fac(n) { als n < 2 { antwoord 1 }; n * fac(n - 1) }; fac(5)` -/
+def facAst : Block :=
+  .cons (.expr (.func "fac".toList ["n".toList]
+    (.cons (.expr (.ifE (.infix (.ident "n".toList) .lt (.int 2)) (.cons (.ret (.int 1)) .nil) .none))
+    (.cons (.expr (.infix (.ident "n".toList) .mul (.call (.ident "fac".toList) (.cons (.infix (.ident "n".toList) .sub (.int 1)) .nil)))) .nil))))
+  (.cons (.expr (.call (.ident "fac".toList) (.cons (.int 5) .nil))) .nil)
+
+/-- non-vacuity: the recursive factorial program passes the validation (kernel-evaluated) -/
+example : (match compileProgram facAst with | .ok (r, _) => SimF.inFragment r | .error _ => false) = true := by decide
 
 def exBody : RBlock := .cons (.expr (.var ⟨1, .loc 0⟩)) .nil
 def exProg : RBlock :=
